@@ -66,3 +66,204 @@ Print Assumptions C16_trait_finalize_reset.
 Print Assumptions C16_trait_xof.
 Print Assumptions C16_guts_chunk_spec.
 Print Assumptions C16_guts_parent_spec.
+
+(* ---- the model against the source text: src/traits.rs, src/guts.rs ---------------------------------------------
+   gen/GenTraits.v is the text of every RustCrypto trait method body of src/traits.rs (Update::update, Reset::reset,
+   FixedOutput::finalize_into, FixedOutputReset::finalize_into_reset, ExtendableOutput::finalize_xof,
+   ExtendableOutputReset::finalize_xof_reset, XofReader::read, KeyInit::new), of its associated size types, and of
+   guts::ChunkState::{new, len, update, finalize} / guts::parent_cv (src/guts.rs), translated statement by statement
+   (tools/gen_coq.py gen_traits, regenerated from /repo on every run): each body is the sequence of inherent-method
+   calls it makes, the callees being the translations of gen/GenLibLoops.v (Hasher::reset / finalize / finalize_xof,
+   ChunkState::new / count / update / output), gen/GenXof.v (OutputReader::new / fill) and gen/GenHazmat.v
+   (Hasher::new_keyed).  Hasher::update (update_with_join) is not translated: it is the parameter ext_Hasher_update,
+   instantiated with m_Hasher_update = the model's hasher_update through the representation maps; the other
+   parameters are the models' as in Props/C02.v / Props/C03.v.  The OpT* cases of Machine.step are these bodies; the
+   guts functions are Model/RsGuts.v's, on every argument and every fuel.  An `out: &mut Array<u8, U32>` is its byte
+   list; guts::ChunkState(crate::ChunkState) is its one field.  Proofs in Proofs/GenTraitsP.v. *)
+From V Require Import Base.MachInt gen.GenConsts gen.GenLibSmall gen.GenLibLoops gen.GenXof gen.GenHazmat gen.GenTraits
+  Proofs.GenLibSmallP Proofs.GenLibLoopsP Proofs.GenXofP Proofs.GenHazmatP Proofs.GenTraitsP.
+
+Theorem C16_src_repr_def :
+  (forall h input, m_Hasher_update h input =
+     GenLibLoopsP.res_map (lib_of_hasher (lib_ChunkState_platform (lib_Hasher_chunk_state h)))
+       (hasher_update (lib_ChunkState_platform (lib_Hasher_chunk_state h)) (hasher_of_lib h) input)) /\
+  (forall p h input, m_Hasher_update (lib_of_hasher p h) input = GenLibLoopsP.res_map (lib_of_hasher p) (hasher_update p h input)) /\
+  (forall fuel h, fin_ok fuel h =
+     ((length (h_stack h) <= fuel)%nat /\ (forall a, h_stack h = [a] -> cs_count (h_cs h) <> Ok 0))) /\
+  (forall fuel h, hasher_shape fuel h = (fin_ok fuel h /\ length (h_key h) = 8%nat /\ length (cs_cv (h_cs h)) = 8%nat)).
+Proof. split; [reflexivity|]. split; [exact m_Hasher_update_of|]. split; reflexivity. Qed.
+Print Assumptions C16_src_repr_def.
+
+(* type OutputSize = U32; type KeySize = U32; type BlockSize = U64 *)
+Theorem C16_src_sizes :
+  tr_OutputSizeUser_OutputSize = rs_OUT_LEN /\ tr_KeySizeUser_KeySize = rs_KEY_LEN /\ tr_BlockSizeUser_BlockSize = rs_BLOCK_LEN.
+Proof. exact tr_sizes. Qed.
+Print Assumptions C16_src_sizes.
+
+Theorem C16_src_update : forall p h data,
+  tr_Update_update m_Hasher_update (lib_of_hasher p h) data = GenLibLoopsP.res_map (lib_of_hasher p) (hasher_update p h data).
+Proof. exact tr_Update_update_eq. Qed.
+Print Assumptions C16_src_update.
+
+Theorem C16_src_reset : forall p h, tr_Reset_reset (lib_of_hasher p h) = lib_of_hasher p (hasher_reset h).
+Proof. exact tr_Reset_reset_eq. Qed.
+Print Assumptions C16_src_reset.
+
+(* out.copy_from_slice(self.finalize().as_bytes()): the digest, after the length check of copy_from_slice *)
+Theorem C16_src_finalize_into : forall p fuel h out, fin_ok fuel h ->
+  tr_FixedOutput_finalize_into m_parent_node_output m_Output_chaining_value m_Output_root_hash fuel (lib_of_hasher p h) out
+  = (d <- hasher_finalize p h ;; assert! (N.of_nat (length d) =? N.of_nat (length out)) code 42 ;; Ok d).
+Proof. exact tr_FixedOutput_finalize_into_eq. Qed.
+Print Assumptions C16_src_finalize_into.
+
+Theorem C16_src_finalize_into_32 : forall p fuel h out, fin_ok fuel h -> PlatformOK p ->
+  length (h_key h) = 8%nat -> length (cs_cv (h_cs h)) = 8%nat -> length out = 32%nat ->
+  tr_FixedOutput_finalize_into m_parent_node_output m_Output_chaining_value m_Output_root_hash fuel (lib_of_hasher p h) out
+  = hasher_finalize p h.
+Proof. exact tr_FixedOutput_finalize_into_32. Qed.
+Print Assumptions C16_src_finalize_into_32.
+
+Theorem C16_src_finalize_into_reset : forall p fuel h out, fin_ok fuel h ->
+  tr_FixedOutputReset_finalize_into_reset m_parent_node_output m_Output_chaining_value m_Output_root_hash fuel
+    (lib_of_hasher p h) out
+  = (d <- hasher_finalize p h ;; assert! (N.of_nat (length d) =? N.of_nat (length out)) code 42 ;;
+     Ok (lib_of_hasher p (hasher_reset h), d)).
+Proof. exact tr_FixedOutputReset_finalize_into_reset_eq. Qed.
+Print Assumptions C16_src_finalize_into_reset.
+
+Theorem C16_src_finalize_xof : forall p fuel h, fin_ok fuel h ->
+  tr_ExtendableOutput_finalize_xof m_parent_node_output m_Output_chaining_value fuel (lib_of_hasher p h)
+  = GenLibLoopsP.res_map (fun o => lib_of_rd p (reader_new o)) (hasher_finalize_output p h).
+Proof. exact tr_ExtendableOutput_finalize_xof_eq. Qed.
+Print Assumptions C16_src_finalize_xof.
+
+Theorem C16_src_finalize_xof_reset : forall p fuel h, fin_ok fuel h ->
+  tr_ExtendableOutputReset_finalize_xof_reset m_parent_node_output m_Output_chaining_value fuel (lib_of_hasher p h)
+  = GenLibLoopsP.res_map (fun o => (lib_of_hasher p (hasher_reset h), lib_of_rd p (reader_new o))) (hasher_finalize_output p h).
+Proof. exact tr_ExtendableOutputReset_finalize_xof_reset_eq. Qed.
+Print Assumptions C16_src_finalize_xof_reset.
+
+Theorem C16_src_xof_reader_read : forall p r buf,
+  r_pwb r < 2 ^ 8 -> N.of_nat (length buf) < 2 ^ 64 -> xof_shape p (r_out r) ->
+  tr_XofReader_read m_xof_many (lib_of_rd p r) buf = GenLibLoopsP.res_map (fill_map p) (reader_fill p r (N.of_nat (length buf))).
+Proof. exact tr_XofReader_read_eq. Qed.
+Print Assumptions C16_src_xof_reader_read.
+
+Theorem C16_src_key_init_new : forall key p, length key = 32%nat ->
+  tr_KeyInit_new key p = lib_of_hasher p (new_internal (words_of_bytes key) rs_flag_KEYED_HASH).
+Proof. exact tr_KeyInit_new_eq. Qed.
+Print Assumptions C16_src_key_init_new.
+
+(* the OpT* cases of Machine.step *)
+Theorem C16_src_step_update : forall p pn m key flags st i b,
+  step p pn m key flags st (OpTUpdate i b)
+  = (h <- get (st_hashers st) i ;;
+     h' <- tr_Update_update m_Hasher_update (lib_of_hasher p h) b ;;
+     Ok (set_hasher st i (hasher_of_lib h'), [])).
+Proof. exact step_TUpdate. Qed.
+Print Assumptions C16_src_step_update.
+
+Theorem C16_src_step_reset : forall p pn m key flags st i,
+  step p pn m key flags st (OpTReset i)
+  = (h <- get (st_hashers st) i ;; Ok (set_hasher st i (hasher_of_lib (tr_Reset_reset (lib_of_hasher p h))), [])).
+Proof. exact step_TReset. Qed.
+Print Assumptions C16_src_step_reset.
+
+Theorem C16_src_step_finalize : forall p pn m key flags st fuel i, PlatformOK p ->
+  (forall h, get (st_hashers st) i = Ok h -> hasher_shape fuel h) ->
+  step p pn m key flags st (OpTFinalize i)
+  = (h <- get (st_hashers st) i ;;
+     d <- tr_FixedOutput_finalize_into m_parent_node_output m_Output_chaining_value m_Output_root_hash fuel
+            (lib_of_hasher p h) (repeat 0 32%nat) ;;
+     Ok (st, [ObHex d])).
+Proof. exact step_TFinalize. Qed.
+Print Assumptions C16_src_step_finalize.
+
+Theorem C16_src_step_finalize_reset : forall p pn m key flags st fuel i, PlatformOK p ->
+  (forall h, get (st_hashers st) i = Ok h -> hasher_shape fuel h) ->
+  step p pn m key flags st (OpTFinalizeReset i)
+  = (h <- get (st_hashers st) i ;;
+     '(h', d) <- tr_FixedOutputReset_finalize_into_reset m_parent_node_output m_Output_chaining_value m_Output_root_hash
+                   fuel (lib_of_hasher p h) (repeat 0 32%nat) ;;
+     Ok (set_hasher st i (hasher_of_lib h'), [ObHex d])).
+Proof. exact step_TFinalizeReset. Qed.
+Print Assumptions C16_src_step_finalize_reset.
+
+Theorem C16_src_step_xof : forall p pn m key flags st fuel i n, n < 2 ^ 64 ->
+  (forall h, get (st_hashers st) i = Ok h -> fin_ok fuel h /\ forall o, hasher_finalize_output p h = Ok o -> xof_shape p o) ->
+  step p pn m key flags st (OpTXof i n)
+  = (h <- get (st_hashers st) i ;;
+     rd <- tr_ExtendableOutput_finalize_xof m_parent_node_output m_Output_chaining_value fuel (lib_of_hasher p h) ;;
+     '(rd', buf) <- tr_XofReader_read m_xof_many rd (repeat 0 (N.to_nat n)) ;;
+     Ok (add_reader st (rd_of_lib rd'), [ObXof buf])).
+Proof. exact step_TXof. Qed.
+Print Assumptions C16_src_step_xof.
+
+Theorem C16_src_step_xof_reset : forall p pn m key flags st fuel i n, n < 2 ^ 64 ->
+  (forall h, get (st_hashers st) i = Ok h -> fin_ok fuel h /\ forall o, hasher_finalize_output p h = Ok o -> xof_shape p o) ->
+  step p pn m key flags st (OpTXofReset i n)
+  = (h <- get (st_hashers st) i ;;
+     '(h', rd) <- tr_ExtendableOutputReset_finalize_xof_reset m_parent_node_output m_Output_chaining_value fuel
+                    (lib_of_hasher p h) ;;
+     '(rd', buf) <- tr_XofReader_read m_xof_many rd (repeat 0 (N.to_nat n)) ;;
+     Ok (add_reader (set_hasher st i (hasher_of_lib h')) (rd_of_lib rd'), [ObXof buf])).
+Proof. exact step_TXofReset. Qed.
+Print Assumptions C16_src_step_xof_reset.
+
+Theorem C16_src_step_key_init : forall p pn m key flags st k, m = MKeyed k -> length k = 32%nat ->
+  step p pn m key flags st OpTKeyInit = Ok (add_hasher st (hasher_of_lib (tr_KeyInit_new k p)), []).
+Proof. exact step_TKeyInit. Qed.
+Print Assumptions C16_src_step_key_init.
+
+(* digest::Digest::new() is Default::default(), which is Hasher::new() *)
+Theorem C16_src_step_digest_new : forall p pn m key flags st,
+  step p pn m key flags st OpTDigestNew = Ok (add_hasher st (hasher_of_lib (hz_Hasher_Default_default p)), []).
+Proof. exact step_TDigestNew. Qed.
+Print Assumptions C16_src_step_digest_new.
+
+(* src/guts.rs *)
+Theorem C16_src_guts_new : forall ctr p, gu_ChunkState_new ctr p = lib_of_cs p (guts_new ctr).
+Proof. exact gu_ChunkState_new_eq. Qed.
+Print Assumptions C16_src_guts_new.
+
+Theorem C16_src_guts_len : forall p c, gu_ChunkState_len (lib_of_cs p c) = guts_len c.
+Proof. exact gu_ChunkState_len_eq. Qed.
+Print Assumptions C16_src_guts_len.
+
+(* every fuel (cs_update_with: Props/C02.v C02_lib_src_cs_update_with_def), then the model's own fuel *)
+Theorem C16_src_guts_update_fuel : forall p fuel c input, cs_buf_len c < 2 ^ 64 ->
+  gu_ChunkState_update fuel (lib_of_cs p c) input = GenLibLoopsP.res_map (lib_of_cs p) (cs_update_with fuel p c input).
+Proof. exact gu_ChunkState_update_fuel. Qed.
+Print Assumptions C16_src_guts_update_fuel.
+
+Theorem C16_src_guts_update : forall p fuel c input, cs_buf_len c < 2 ^ 64 -> (length input < 64 * fuel)%nat ->
+  gu_ChunkState_update fuel (lib_of_cs p c) input = GenLibLoopsP.res_map (lib_of_cs p) (guts_update p c input).
+Proof. exact gu_ChunkState_update_eq. Qed.
+Print Assumptions C16_src_guts_update.
+
+Theorem C16_src_guts_finalize : forall p c is_root,
+  gu_ChunkState_finalize m_Output_chaining_value m_Output_root_hash (lib_of_cs p c) is_root = guts_finalize p c is_root.
+Proof. exact gu_ChunkState_finalize_eq. Qed.
+Print Assumptions C16_src_guts_finalize.
+
+Theorem C16_src_guts_parent_cv : forall p l r is_root,
+  gu_parent_cv m_parent_node_output m_Output_chaining_value m_Output_root_hash l r is_root p = guts_parent_cv p l r is_root.
+Proof. exact gu_parent_cv_eq. Qed.
+Print Assumptions C16_src_guts_parent_cv.
+
+(* non-vacuity: the translated bodies compute, and agree with the models *)
+Example C16_src_nonvacuous :
+  let p := sim_platform 4 16 in
+  let h := new_internal rs_IV 0 in
+  GenLibLoopsP.res_map hasher_of_lib (tr_Update_update m_Hasher_update (lib_of_hasher p h) [1; 2; 3]) = hasher_update p h [1; 2; 3] /\
+  (h1 <- hasher_update p h [1; 2; 3] ;;
+   tr_FixedOutput_finalize_into m_parent_node_output m_Output_chaining_value m_Output_root_hash 64 (lib_of_hasher p h1)
+     (repeat 0 32%nat)) = (h1 <- hasher_update p h [1; 2; 3] ;; hasher_finalize p h1) /\
+  is_ok (h1 <- hasher_update p h [1; 2; 3] ;; hasher_finalize p h1) = true /\
+  (h1 <- hasher_update p h [1; 2; 3] ;;
+   tr_FixedOutput_finalize_into m_parent_node_output m_Output_chaining_value m_Output_root_hash 64 (lib_of_hasher p h1)
+     (repeat 0 31%nat)) = Panic 42 /\
+  gu_parent_cv m_parent_node_output m_Output_chaining_value m_Output_root_hash (repeat 1 32%nat) (repeat 2 32%nat) true p
+    = guts_parent_cv p (repeat 1 32%nat) (repeat 2 32%nat) true.
+Proof. vm_compute. repeat split. Qed.
+Print Assumptions C16_src_nonvacuous.
